@@ -95,7 +95,12 @@ def task_sim(cfg):
     def check(ex):
         vs = monitors.lifecycle(ex, cfg["W"], allow_exc=("LoopCap",))
         seen.update(ex.proto_seen)
+        if any(k.startswith("exc:") for k, _ in vs):
+            # an exception the scheduler raised *on* a stale result of the previous run (C10's finding) is named by that cause
+            named = {k.split(":on-stale-result-of-previous-run:")[0]: k for k, _ in sim_check(ex) if ":on-stale-result-of-previous-run:" in k}
+            vs = [(named.get(k, k), w) for k, w in vs]
         return vs
+    sim_check = c10.check_factory(cfg)
     cov, viols = tunerx.explore(c10.build_factory(cfg), check, PROP, c10.label(cfg), bound=cfg["k"], max_exec=cfg.get("max_exec"),
                                 loop_cap=cfg.get("loop_cap", 400), ctx="sim/" + c10.ctx_of(cfg) + f"/W{cfg['W']}",
                                 state_of=lambda ex: getattr(ex, "states_seen", ()))
@@ -185,6 +190,14 @@ def run(tier, seed):
 
 def replay(data):
     cfg = dict(data["cfg"])
+    if cfg.get("sim"):
+        from . import c10
+        ex = tunerx.run_tuner(c10.build_factory(cfg), tunerx.Chooser(data["choices"]), cfg.get("loop_cap", 400))
+        vs = monitors.lifecycle(ex, cfg["W"], allow_exc=("LoopCap",))
+        named = {k.split(":on-stale-result-of-previous-run:")[0]: k for k, _ in c10.check_factory(cfg)(ex)
+                 if ":on-stale-result-of-previous-run:" in k}
+        tunerx.clean_scratch()
+        return [Violation(PROP, named.get(k, k), w) for k, w in vs]
     prof = cfg["profile"]
     if isinstance(prof, str):
         b, r, l = prof.split("/")
